@@ -258,6 +258,23 @@ func runsFor(prop, tier string) []run {
 				}
 				return []string{"RB", "Step"} // the quick tier walks the rebuild itself; writes in every gap are the thorough tier's
 			}(), 4, 0, 1, 5), pick(30, 32), minutes(pickf(0.5, 4))},
+			// the joiner is LEVEL with the source (it dropped out and came back with no write in between: equal revision
+			// counters, equal chains): the task may skip the file copy, and what it promotes must still be identical
+			{"rebuild-joiner-level-with-the-source", mk(append(append([]string{}, rw3...), "W:0", "W:0", "MonFail:2", "Restart:2"), func() []string {
+				if th {
+					return []string{"RB", "Step", "W0", "R"}
+				}
+				return []string{"RB", "Step"}
+			}(), 4, 0, 1, 5), pick(30, 32), minutes(pickf(0.4, 4))},
+			// ... and LEVEL BY COUNT ONLY: one unacknowledged write reached only the joiner before it dropped out, the volume
+			// acknowledged one other write before it came back.  The counters are equal, the contents are not.  (On the
+			// pinned tree the task skips the copy: known finding, see known_findings.json; the signatures of this run carry
+			// the history's name so that the same oracles failing on any other history are still reported.)
+			{"rebuild-joiner-level-by-count-different-by-content", func() eb.Cfg {
+				c := mk(append(append([]string{}, rw3...), "W:0", "MonFail:2", "Ahead:2:1", "Restart:2", "W:0"), []string{"RB", "Step"}, 4, 0, 1, 5)
+				c.SigTag = "joiner-with-equal-revision-counter-and-different-content"
+				return c
+			}(), pick(30, 32), minutes(pickf(0.4, 2))},
 			{"rebuild-full-volume-scattered-overwrites", func() eb.Cfg {
 				c := mk(append(append([]string{}, rw2...), "W:0", "W:0", "W:0", "W:0"), []string{"RB", "Step", "Wb"}, 6, 0, 0, 3)
 				c.WBlocks = []int{0, 2}
